@@ -407,6 +407,9 @@ class SimProcess:
         self.entropy = random.Random(f"entropy/{name}/{amb_seed}/{_ENTROPY['incarnations']}")
         self.sched = random.Random(f"sched/{name}/{amb_seed}/{_ENTROPY['incarnations']}")
         self.pid = 50000 + _ENTROPY["incarnations"]
+        # torch's intra-op thread count is a per-process setting (dataloader workers run with 1, a main process with whatever the
+        # machine / OMP_NUM_THREADS says): results must not depend on it
+        self.num_threads = 1 if name.startswith("worker") else [1, 2, 4, 8][amb_seed % 4 if isinstance(amb_seed, int) else 0]
         self.worker_info = worker_info
         self.objects = {}
         self._depth = 0
@@ -425,6 +428,9 @@ class SimProcess:
         _SCHED["current"] = self.sched
         _PID["current"] = self.pid
         _os.getpid = _sim_getpid
+        outer_threads = torch.get_num_threads
+        nt = self.num_threads
+        torch.get_num_threads = lambda: nt
         # every process is its own interpreter launch as far as str/bytes hashing is concerned (spawn semantics, like the
         # pickle boundary); C-level hashing of dict/set keys is not affected by replacing the builtin
         self._hash_ctx = salted_hash(f"proc/{self.name}/{self.pid}")
@@ -437,6 +443,7 @@ class SimProcess:
             tw._worker_info = outer_wi
             _ENTROPY["current"] = outer_entropy
             _SCHED["current"], _PID["current"], _os.getpid = outer_sched, outer_pid, outer_getpid
+            torch.get_num_threads = outer_threads
             self._hash_ctx.__exit__()
             self._depth = 0
 
